@@ -15,13 +15,13 @@ def strvWord : Option Char → Str → Str → Res
   | _, acc, [] => .word acc.reverse []
   | none, acc, c :: r =>
       if isQuote c then strvWord (some c) acc r
-      else if isSep c then .word acc.reverse (dropSeps r)
+      else if implSep c then .word acc.reverse (implDropSeps r)
       else strvWord none (c :: acc) r
   | some q, acc, c :: r =>
       if c == q then strvWord none acc r else strvWord (some q) (c :: acc) r
 
 def strvNext (s : Str) : Res :=
-  match dropSeps s with
+  match implDropSeps s with
   | [] => .noWord
   | c :: r => strvWord none [] (c :: r)
 
@@ -42,7 +42,7 @@ theorem impl_strv_of_spec (q acc s w rest)
       rw [Spec.word] at h
       simp only [sf_unquote, Bool.and_true, sf_retain, Bool.not_true, Bool.and_false, Bool.false_eq_true,
         if_false] at h
-      simp only [Impl.strvWord]
+      simp only [Impl.strvWord, implSep_eq, implDropSeps_eq]
       split
       · rename_i hq; simp only [hq, if_true] at h; exact ih _ _ h
       · rename_i hq
